@@ -107,14 +107,14 @@ impl ProjectExpression for BinaryExpr {
                     if *r == 0 {
                         Value::Null
                     } else {
-                        Value::Int64(l / r)
+                        Value::Int64(l.wrapping_div(*r))
                     }
                 }
                 ArithOp::Mod => {
                     if *r == 0 {
                         Value::Null
                     } else {
-                        Value::Int64(l % r)
+                        Value::Int64(l.wrapping_rem(*r))
                     }
                 }
             },
